@@ -36,7 +36,7 @@ def run_real(prog, use_ctl=False):
         C.Ctl().attach(sched)
     try:
         try:
-            v = sched.run(vf_tasks.node(prog, {}))
+            v = sched.run(vf_tasks.node(P.fresh(prog), {}))
             return ("ok", v)
         except Exception as e:  # noqa: BLE001 - the program's own failure is an outcome
             return ("err", e)
